@@ -37,8 +37,10 @@ TECHNIQUE = (
 LEVEL_TEXT = (
     "Theorems of coq/Props/C09.v hold for every tree, destination, write_into, cwd and every remote/local state "
     "satisfying the stated no-conflict hypotheses (Closed under the global context); C09_upload_dir_refuted shows "
-    "the faithful model of the current upload() violates the documented placement (finding F1), "
-    "C09_upload_spec_fixed proves the full statement for the candidate fix. The model is hand-written; its tie to "
+    "the faithful model of upload() as found violates the documented placement (finding F1), "
+    "C09_upload_spec_fixed proves the full statement for the candidate fix, C09_upload_dir_spec_repo is the statement "
+    "about whichever of the two forms client.py has now (read from the source by py2v on every run, third forms fail "
+    "closed). The model is hand-written; its tie to "
     "the code is a bounded-exhaustive wire-level correspondence (all tree shapes to depth 3 / fan-out 2 x "
     "destinations x write_into x cwd, MLSD and LIST-fallback servers, memory and disk backends on both sides)."
 )
@@ -57,9 +59,12 @@ ASSUMPTIONS = [
     "sibling names distinct; sources with an empty name ('' or '/') are outside the model (LIST-fallback stat fails on them)",
 ]
 
-# the model function that stands for Client.upload: 0 = the code as it is (finding F1),
-# 1 = the code after docs/fixes/C09-upload-destination.diff.  Switch to 1 when the fix is applied.
-UPLOAD_MODEL_FN = int(os.environ.get("C09_UPLOAD_MODEL_FN", "0"))
+# Model function 0 stands for Client.upload AS /repo HAS IT NOW: Extract/ExC09.v instantiates the model's
+# `fixed` parameter with Gen.ClientWalks.upload_relative_fixed, which tools/py2v/gen_client_walks.py reads from
+# client.py on every run (false = as found, finding F1; true = docs/fixes/C09-upload-destination.diff; any other
+# computation of `relative` fails closed).  1 = the fixed code, 9 = the code as found, 10 = the flag itself.
+UPLOAD_MODEL_FN = 0
+GEN_FILE = core.COQ / "Gen" / "ClientWalks.v"
 KNOWN_KEY = "c09-upload-dir-multi-component-destination"
 
 TMP_ROOT = core.VERIF / "build" / "tmp"
@@ -572,8 +577,23 @@ def replay_payload(case, key, **kw):
     return d
 
 
-def check_cases(ctx, cases, tmp):
-    """run every case on the real code, then the model in one batch, then compare"""
+def gen_flag():
+    """(translator_ok, upload_relative_fixed) as written by py2v for this run; (False, None) when it failed closed"""
+    import re
+
+    try:
+        txt = GEN_FILE.read_text()
+    except OSError:
+        return False, None
+    m = re.search(r"Definition upload_relative_fixed : bool := (true|false)\.", txt)
+    ok = re.search(r"Definition translator_ok : bool := true\.", txt) is not None
+    return (ok and m is not None), (m.group(1) == "true" if m else None)
+
+
+def check_cases(ctx, cases, tmp, use_model=True):
+    """run every case on the real code, then the model in one batch, then compare.
+    use_model=False: only the property oracles are evaluated on the implementation (failing-input search when the
+    model could not be built, e.g. the translator met a third form of upload)"""
     observed = []
     for case in cases:
         src = build(case["shape"], case["scheme"])
@@ -597,11 +617,12 @@ def check_cases(ctx, cases, tmp):
             (5, [cwdp, t1, lcwdp, enc_tree(obs["local0"]), ppath(dl), ppath(case["ldst"]), obs["lwi"]]),
             (4, [cwdp, t1, ppath(rm)]),
         ]
-    outs = ctx.model(jobs)
+    outs = ctx.model(jobs) if use_model else None
     xcheck = []
     for i, (case, src, remote, obs) in enumerate(observed):
-        m_up, m_fixed, m_graft, m_list, m_dl, m_rm = outs[6 * i : 6 * i + 6]
-        if i % 40 == 0 and len(xcheck) < 60:
+        if use_model:
+            m_up, m_fixed, m_graft, m_list, m_dl, m_rm = outs[6 * i : 6 * i + 6]
+        if use_model and i % 40 == 0 and len(xcheck) < 60:
             xcheck += [(fn, a, o) for (fn, a), o in zip(jobs[6 * i : 6 * i + 6], outs[6 * i : 6 * i + 6])]
         cwdp = [p for p in case["cwd"].split("/") if p]
         lcwdp = [p for p in case["lcwd"].split("/") if p]
@@ -616,17 +637,17 @@ def check_cases(ctx, cases, tmp):
                     "remote_after_upload": show(obs["t1"])})
 
         # ---- upload: model vs implementation
-        mu = model_tree(m_up)
+        mu = model_tree(m_up) if use_model else None
         impl_up = ("ok", obs["t1"]) if obs["upload_exc"] is None else ("fail",)
-        if mu[0] != impl_up[0] or (mu[0] == "ok" and canon(mu[1]) != canon(obs["t1"])):
+        if use_model and (mu[0] != impl_up[0] or (mu[0] == "ok" and canon(mu[1]) != canon(obs["t1"]))):
             ctx.disagree("upload", {**tag, "source": show(src)},
                          show(mu[1]) if mu[0] == "ok" else mu[0],
                          show(obs["t1"]) if obs["upload_exc"] is None else obs["upload_exc"])
         # ---- the specification, three ways: Python oracle, model graft, model of the fixed code
         dst2 = pathlib.PurePosixPath(case["dst"]) / ("" if case["wi"] else "foo")
         want = graft_oracle(remote, resolve(cwdp, str(dst2)), src)
-        mg = dec_tree(m_graft)
-        mf = model_tree(m_fixed)
+        mg = dec_tree(m_graft) if use_model else want
+        mf = model_tree(m_fixed) if use_model else ("ok", want)
         if canon(mg) != canon(want):
             ctx.disagree("graft-vs-oracle", {**tag, "source": show(src)}, show(mg), show(want))
         if graft_compatible(remote, resolve(cwdp, str(dst2)), src) and (mf[0] != "ok" or canon(mf[1]) != canon(want)):
@@ -651,13 +672,13 @@ def check_cases(ctx, cases, tmp):
         t1 = obs["t1"]
         root = sub(t1, resolve(cwdp, lst))
         ml = None
-        if m_list[0] == 0:
+        if use_model and m_list[0] == 0:
             ml = sorted(
                 (str(pathlib.PurePosixPath(("/" if it[0][0] else "") + "/".join(sx.txts(it[0][1])))),
                  "dir" if it[1] else "file")
                 for it in m_list[1]
             )
-        if ml != obs["list"]:
+        if use_model and ml != obs["list"]:
             ctx.disagree("list", {**tag, "path": lst, "tree": show(t1)}, ml, obs["list"])
         truth = sorted((str(pathlib.PurePosixPath(lst).joinpath(*p)), "dir" if d else "file")
                        for p, d in entries_oracle(root, ()))
@@ -666,9 +687,9 @@ def check_cases(ctx, cases, tmp):
                           replay_payload(case, "c09-list-mismatch", path=lst, tree=show(t1), got=obs["list"], expected=truth))
 
         # ---- download
-        md = model_tree(m_dl)
+        md = model_tree(m_dl) if use_model else None
         impl_dl = ("ok", obs["local1"]) if obs["download_exc"] is None else ("fail",)
-        if md[0] != impl_dl[0] or (md[0] == "ok" and canon(md[1]) != canon(obs["local1"])):
+        if use_model and (md[0] != impl_dl[0] or (md[0] == "ok" and canon(md[1]) != canon(obs["local1"]))):
             ctx.disagree("download", {**tag, "source": dl, "ldst": case["ldst"], "lwi": obs["lwi"], "lcwd": case["lcwd"],
                                       "tree": show(t1)},
                          show(md[1]) if md[0] == "ok" else md[0],
@@ -684,9 +705,9 @@ def check_cases(ctx, cases, tmp):
                                          got=show(obs["local1"]) if obs["download_exc"] is None else obs["download_exc"]))
 
         # ---- remove
-        mr = model_tree(m_rm)
+        mr = model_tree(m_rm) if use_model else None
         impl_rm = ("ok", obs["t2"]) if obs["remove_exc"] is None else ("fail",)
-        if mr[0] != impl_rm[0] or (mr[0] == "ok" and canon(mr[1]) != canon(obs["t2"])):
+        if use_model and (mr[0] != impl_rm[0] or (mr[0] == "ok" and canon(mr[1]) != canon(obs["t2"]))):
             ctx.disagree("remove", {**tag, "path": rm, "tree": show(t1)},
                          show(mr[1]) if mr[0] == "ok" else mr[0],
                          show(obs["t2"]) if obs["remove_exc"] is None else obs["remove_exc"])
@@ -720,12 +741,30 @@ def correspondence(ctx):
         "the case index. Each session also lists recursively, downloads and removes a path chosen from the real remote tree. "
         "A case is non-trivial when its (shape, naming, configuration) is distinct."
     )
+    gen_ok, fixed = gen_flag()
+    ctx.extra["upload_form_in_source"] = (
+        "unclassified (translator failed closed)" if not gen_ok
+        else "fixed: relative = destination / path.relative_to(source)" if fixed
+        else "as found (F1): destination.name / path.relative_to(source) | path.relative_to(source.parent)"
+    )
+    use_model = gen_ok
+    if not gen_ok:
+        ctx.obligation_broken("Gen.ClientWalks", "py2v could not classify the path computations of Client.upload/download")
+    else:
+        got = ctx.model([(10, [[], enc_tree({})])])[0]
+        if bool(got) != fixed:
+            use_model = False
+            ctx.obligation_broken("stale-model", f"extracted model has upload_relative_fixed={bool(got)}, the source says {fixed}")
+    if fixed and ctx.kf:
+        ctx.extra["note"] = ("client.py has the fixed form of upload; finding " + ctx.kf[0]["id"]
+                             + " should be moved to 'fixed' in known_findings.json")
     TMP_ROOT.mkdir(parents=True, exist_ok=True)
     tmp = TMP_ROOT / f"c09-{os.getpid()}"
     tmp.mkdir(exist_ok=True)
     try:
         cases = make_cases(ctx) + dots_cases()
-        xcheck = check_cases(ctx, cases, tmp)
+        xcheck = check_cases(ctx, cases, tmp, use_model=use_model)
+        ctx.extra["correspondence_ran"] = True
         ctx.count("sessions", len(cases))
     finally:
         shutil.rmtree(tmp, ignore_errors=True)
@@ -757,8 +796,20 @@ def known(ctx):
 
 
 def search(ctx):
-    """the oracle already ran on every implementation output; nothing wider to try in quick"""
-    return
+    """failing-input search.  When the correspondence ran, the oracles were already evaluated on every implementation
+    output.  When it could not run (the model did not build: e.g. py2v met a computation of `relative` it does not
+    know), run the same sessions with the property oracles alone."""
+    if ctx.extra.get("correspondence_ran"):
+        return
+    TMP_ROOT.mkdir(parents=True, exist_ok=True)
+    tmp = TMP_ROOT / f"c09s-{os.getpid()}"
+    tmp.mkdir(exist_ok=True)
+    try:
+        cases = make_cases(ctx) + dots_cases()
+        check_cases(ctx, cases, tmp, use_model=False)
+        ctx.count("sessions(oracle only)", len(cases))
+    finally:
+        shutil.rmtree(tmp, ignore_errors=True)
 
 
 def replay(ctx, data):
@@ -804,7 +855,7 @@ def replay(ctx, data):
 
     probe = Probe(ctx)
     try:
-        check_cases(probe, [case], tmp)
+        check_cases(probe, [case], tmp, use_model=ctx.exe is not None and gen_flag()[0])
     finally:
         shutil.rmtree(tmp, ignore_errors=True)
     return not [b for b in probe.bad if b[1] == r.get("key")]
